@@ -167,11 +167,13 @@ CORE = {
     },
     "C10": {
         "approval_disconnect": True,
+        "pair_probes": True,
         "checked": core.ALL_COMPS,
         "assumptions": [
             "peers announce distinct device addresses and use identical entity/feature numbering",
             "pending write approvals: the connection is removed while writes are pending approval at sampled points of forced Approval schedules (timeouts that have elapsed included); nothing may be written to the removed connection afterwards",
             "the entity removed by a notification is never the device-information entity [0] (that is a robustness input, C05)",
+            "'while messages of other peers are being processed': 96 pair probes park a teardown / registry operation of one peer at a hook point inside its critical section, run an operation of another peer, and require the final state to be that of a serial order (PairTrace)",
         ],
         "quick": {
             "mc": [{"acts": DISC + ["sub", "bind", "lsub", "lbind", "entrem", "entadd", "setdata"], "maxlen": 7}],
@@ -231,6 +233,8 @@ import sender
 PROFILES["C13"] = {"run": sender.run}
 import approval
 PROFILES["C12"] = {"run": approval.run}
+import locks
+PROFILES["C17"] = {"run": locks.run}
 import robust
 PROFILES["C05"] = {"run": robust.run}
 import cmdalg
